@@ -243,3 +243,164 @@ def many_attributes(U, n, names):
 
 many_attributes.enumerate_inputs = lambda tier, **p: iter([{}])
 many_attributes.conc_timeout = 30
+
+
+# ------------------------------------------------------------------------------------------------
+# Loop contracts with a termination VARIANT on streams of arbitrary length and content (loader T2): the variant is a non-negative
+# integer expression over the stream position that strictly decreases on every iteration that reaches the back edge; every other way
+# out of the iteration (break, return, exception) leaves the loop.  Proved for every input at once -- no length parameter.
+from pyvc import ubuf  # noqa: E402
+from pyvc.loops import GhostList, LoopSpec  # noqa: E402
+
+
+def _sym_stream(U, name="file"):
+    mem = ubuf.SymMem(name)
+    buf = ubuf.SymBuf(mem, 0, U.int("len", 0, ubuf.MAXLEN))
+    p0 = U.int("p0", 0, ubuf.MAXLEN)
+    return mem, buf, p0, ubuf.SymStreamU(buf, p0, "buff")
+
+
+# -- ARSCHeader.__init__: `while True` dummy-data skip loop.  Invariant: start <= pos.  Variant: len - pos (a header that is not
+# accepted makes the loop re-read from one byte further; at the end of the data the 8-byte read comes back short and unpack raises).
+HDR_SKIP = LoopSpec("ARSCHeader.__init__#0",
+                    invariant=lambda s, L, k: And(L["buff"].pos >= L["self"].start, L["buff"].pos + 8 <= L["buff"].buf.length + 8),
+                    variant=lambda s, L, k: L["buff"].buf.length - L["buff"].pos + 8,
+                    heap=("buff",), const=("self", "expected_type"))
+
+
+@unit("C35", covers=[(AXML, "ARSCHeader.__init__")], loops={(AXML, "ARSCHeader.__init__", 0): HDR_SKIP}, samples=200, terminates=True,
+      note="loop contract: stream of any length and content, any start position; variant len - pos")
+def arsc_header_skip_loop_unbounded(U):
+    m = U.mod(AXML)
+    if U.mode != "sym":
+        n = U.int("n", 0, 64)
+        data = U.bytes("data", n)
+        f = U.stream(bytes(data), U.int("p0", 0, n + 2))
+        o = U.call(m.ARSCHeader, f)
+        import struct
+        U.ensures("terminates with a header or a parser error", o.ok or o.raised(m.ResParserError, struct.error), exc=repr(o.exc))
+        return
+    mem, buf, p0, f = _sym_stream(U)
+    o = U.call(m.ARSCHeader, f)
+    U.ensures("terminates with a header or a parser error", o.ok or o.raised(m.ResParserError, m.__pyvc_struct__.error), exc=repr(o.exc))
+    if o.ok:
+        h = o.value
+        U.ensures("an accepted header lies inside the data, at or behind the start position",
+                  And(h.start == p0, f.pos >= p0 + 8, f.pos <= buf.length))
+
+
+def _leb_contract(U, m, name, lo=-(1 << 32), hi=1 << 32):
+    """callee contract of the LEB128 readers (their bodies are C03's obligation): consume 1..5 bytes and return some integer, or
+    raise struct.error when the data ends first"""
+    def stub(cm, buff):
+        from pyvc.core import ctx
+        tag = "%s#%d" % (name, next(ctx().fresh))         # a fresh pair of unknowns per call
+        k = U.int("%s.bytes" % tag, 1, 5)
+        if buff.pos + k > buff.buf.length:        # decision
+            raise m.__pyvc_struct__.error("unpack requires a buffer of 1 bytes")
+        buff.pos = buff.pos + k
+        return U.int("%s.value" % tag, lo, hi)
+    return stub
+
+
+def _stub_lebs(U, m, lo=-(1 << 32), hi=1 << 32):
+    for nm in ("readuleb128", "readsleb128", "readuleb128p1"):
+        U.substitute(m, nm, _leb_contract(U, m, nm, lo, hi), "callee contract (C03): consumes 1..5 bytes or raises struct.error at the end of the data")
+
+
+# -- DebugInfoItem.__init__: `while bcode.get_op_value() != DBG_END_SEQUENCE`.  Every iteration ends with get_byte (one byte
+# consumed, struct.error at the end of the data).  Variant: len - pos.
+def _havoc_dbg(spec, L):
+    L["self"].bytecodes = GhostList("bytecodes", {})
+
+
+class _Op:
+    def __init__(self, v):
+        self.v, self.format = v, []
+
+    def get_op_value(self):
+        return self.v
+
+    def add(self, value, ttype):
+        self.format.append((value, ttype))
+
+
+DBG_LOOP = LoopSpec("DebugInfoItem.__init__#1",
+                    invariant=lambda s, L, k: And(L["buff"].pos <= L["buff"].buf.length, L["buff"].pos >= 0),
+                    variant=lambda s, L, k: L["buff"].buf.length - L["buff"].pos,
+                    havoc={"bcode": lambda s, L: _Op(s.G["U"].int("op@", 0, 255))},
+                    heap=("buff",), const=("self", "cm"), at_havoc=_havoc_dbg)
+
+
+@unit("C35", covers=[(DEX, "DebugInfoItem.__init__")], loops={(DEX, "DebugInfoItem.__init__", 1): DBG_LOOP}, samples=200,
+      params=[{"nparams": k} for k in (0, 1)], terminates=True, max_paths=20000,
+      note="loop contract on the opcode loop: stream of any length and content; variant len - pos (parameters_size 0 / 1 in "
+           "front of it: that count loop is a `for` over a finite range)")
+def debug_info_loop_unbounded(U, nparams):
+    m = U.mod(DEX)
+    if U.mode != "sym":
+        n = U.int("n", 0, 40)
+        f = U.stream(bytes(U.bytes("data", n)), 0)
+        o = U.call(m.DebugInfoItem, f, U.cm())
+        import struct
+        U.ensures("terminates with an item or a struct.error at the end of the data", o.ok or o.raised(struct.error), exc=repr(o.exc))
+        return
+    mem, buf, p0, f = _sym_stream(U)
+    U.assume(p0 <= buf.length)
+    DBG_LOOP.G = {"U": U}
+    stub_u, stub_s, stub_p = (_leb_contract(U, m, x) for x in ("readuleb128", "readsleb128", "readuleb128p1"))
+    calls = [0]
+
+    def ru(cm, buff):
+        # callee contract; the second call is parameters_size: its value is the unit parameter (count of the `for` in front of
+        # the opcode loop), the bytes consumed are as for any other call
+        calls[0] += 1
+        v = stub_u(cm, buff)
+        return nparams if calls[0] == 2 else v
+    U.substitute(m, "readuleb128", ru, "callee contract (C03): consumes 1..5 bytes or raises struct.error; parameters_size = unit parameter")
+    U.substitute(m, "readsleb128", stub_s, "callee contract (C03): consumes 1..5 bytes or raises struct.error")
+    U.substitute(m, "readuleb128p1", stub_p, "callee contract (C03): consumes 1..5 bytes or raises struct.error")
+    o = U.call(m.DebugInfoItem, f, U.cm())
+    U.ensures("terminates with an item or a struct.error at the end of the data", o.ok or o.raised(m.__pyvc_struct__.error), exc=repr(o.exc))
+
+
+# -- HiddenApiClassDataItem.__init__: `while buff.tell() - self.offset < self.section_size`; variant: section_size - (pos - offset)
+def _havoc_hidden(spec, L):
+    pass
+
+
+HIDDEN_LOOP = LoopSpec("HiddenApiClassDataItem.__init__#0",
+                       invariant=lambda s, L, k: And(L["buff"].pos >= L["self"].offset + 4, L["buff"].pos <= L["buff"].buf.length,
+                                                     L["i"] >= 0),
+                       variant=lambda s, L, k: L["self"].section_size - (L["buff"].pos - L["self"].offset),
+                       havoc={"i": lambda s, L: s.G["U"].int("i@", 0, 1 << 32), "offsets_size": lambda s, L: s.G["U"].int("osz@", -1, 1 << 30)},
+                       heap=("buff",), const=("self", "cm"))
+
+
+def _havoc_flags(spec, L):
+    L["self"].flags = GhostList("flags", {})
+
+
+HIDDEN_FLAGS = LoopSpec("HiddenApiClassDataItem.__init__#1", invariant=lambda s, L, k: L["buff"].pos >= 0,
+                        heap=("buff",), const=("self", "cm", "offsets_size"), at_havoc=_havoc_flags)
+
+
+@unit("C35", covers=[(DEX, "HiddenApiClassDataItem.__init__")],
+      loops={(DEX, "HiddenApiClassDataItem.__init__", 0): HIDDEN_LOOP, (DEX, "HiddenApiClassDataItem.__init__", 1): HIDDEN_FLAGS},
+      samples=100, terminates=True, max_paths=4000,
+      note="loop contract on the offsets-array loop: variant section_size - bytes consumed (each iteration reads one word)")
+def hidden_api_loop_unbounded(U):
+    m = U.mod(DEX)
+    if U.mode != "sym":
+        n = U.int("n", 0, 48)
+        f = U.stream(bytes(U.bytes("data", n)), 0)
+        o = U.call(m.HiddenApiClassDataItem, f, U.cm())
+        import struct
+        U.ensures("terminates with an item or an error", o.ok or o.raised(struct.error, ValueError), exc=repr(o.exc))
+        return
+    mem, buf, p0, f = _sym_stream(U)
+    U.assume(p0 <= buf.length)
+    HIDDEN_LOOP.G = {"U": U}
+    _stub_lebs(U, m, 0, 255)        # flag values 0..255: every enum member and the invalid ones (ValueError)
+    o = U.call(m.HiddenApiClassDataItem, f, U.cm())
+    U.ensures("terminates with an item or an error", o.ok or o.raised(m.__pyvc_struct__.error, ValueError), exc=repr(o.exc))
